@@ -22,7 +22,8 @@ REPO = Path(os.environ.get("CURTSIES_REPO", "/repo"))
 PY = sys.executable
 DRIVER = LEAN / ".lake" / "build" / "bin" / "driver"
 ALLOWED_AXIOMS = {"propext", "Classical.choice", "Quot.sound"}
-FORBIDDEN = re.compile(r"\bsorry\b|\badmit\b|^\s*axiom\s|native_decide|bv_decide|implemented_by|\bunsafe\s|maxHeartbeats\s+0\b", re.M)
+FORBIDDEN = re.compile(r"\bsorry\b|\badmit\b|\baxiom\s|native_decide|bv_decide|implemented_by|\bunsafe\s|maxHeartbeats\s+0\b"
+                       r"|skipKernelTC|@\[\s*extern|moreLeanArgs|leanOptions|weakLeanArgs", re.M)
 GUARD = "CURTSIES_VERIF"
 
 TRUSTED_BASE = [
@@ -76,13 +77,31 @@ class BuildLock:
 
 
 def lake_build(timeout=3000):
-    """-> (ok, failed_modules, log)"""
-    with BuildLock():
-        t = time.time()
-        rc, out = sh(["lake", "build"], cwd=LEAN, timeout=timeout)
-        failed = sorted(set(re.findall(r"^[✖✗x]\s*\[\d+/\d+\]\s*Building (\S+)", out, re.M)) |
-                        set(re.findall(r"^- (Curtsies\S*|Main\S*)$", out, re.M)))
-        return rc == 0, failed, out, time.time() - t
+    """-> (ok, failed_modules, log, seconds).  Call with the BuildLock held (run.py holds it across
+    regenerate + build + audit + the private copy of the driver)."""
+    t = time.time()
+    rc, out = sh(["lake", "build"], cwd=LEAN, timeout=timeout)
+    failed = sorted(set(re.findall(r"^[✖✗x]\s*\[\d+/\d+\]\s*(?:Building|Linking|Compiling) (\S+)", out, re.M)) |
+                    set(re.findall(r"^- (Curtsies\S*|Main\S*|driver\S*)$", out, re.M)))
+    return rc == 0, failed, out, time.time() - t
+
+
+def infra_failure(log):
+    """a Lean/lake PROCESS failure (killed, out of memory, unreadable olean) as opposed to an elaboration error"""
+    return bool(re.search(r"Killed|out of memory|Cannot allocate|object file .* does not exist|failed to read file|"
+                          r"signal \d+|Segmentation fault|No space left", log))
+
+
+def private_driver():
+    """copy the freshly built driver so that a concurrent run (another seed, a mutant campaign) rebuilding it cannot
+    change the model side of this run's ties; called with the BuildLock held"""
+    global DRIVER
+    if (LEAN / ".lake" / "build" / "bin" / "driver").exists():
+        import shutil
+        import tempfile
+        d = tempfile.mkdtemp(prefix="verif-driver-")
+        shutil.copy2(LEAN / ".lake" / "build" / "bin" / "driver", d + "/driver")
+        DRIVER = Path(d) / "driver"
 
 
 def module_file(mod):
@@ -110,7 +129,7 @@ def strip_comments(src):
 
 def forbidden_tokens():
     hits = []
-    for f in list(LEAN.glob("*.lean")) + list((LEAN / "Curtsies").rglob("*.lean")):
+    for f in list(LEAN.glob("*.lean")) + list(LEAN.glob("lakefile*")) + list((LEAN / "Curtsies").rglob("*.lean")):
         for m in FORBIDDEN.finditer(strip_comments(f.read_text())):
             hits.append("%s: %s" % (f.relative_to(LEAN), m.group(0).strip()))
     return hits
@@ -124,9 +143,18 @@ def property_theorems(prop, modules):
         if not f.exists():
             continue
         src = strip_comments(f.read_text())
-        for m in re.finditer(r"^\s*(?:private\s+|protected\s+)?theorem\s+(%s_[A-Za-z0-9_']+)" % prop, src, re.M):
+        for m in re.finditer(r"^\s*(?:@\[[^\]]*\]\s*)*(?:private\s+|protected\s+)?theorem\s+(?:Curtsies\.)?(%s_[A-Za-z0-9_']+)" % prop, src, re.M):
             names.append("Curtsies." + m.group(1))
     return names
+
+
+def pinned_theorems(prop):
+    """the committed list of theorem names this property must have (harness/theorems.json, written by pin_theorems.py):
+    a renamed, deleted, commented-out or moved theorem is then a proof problem instead of a silently smaller count"""
+    f = HARNESS / "theorems.json"
+    if not f.exists():
+        return None
+    return json.loads(f.read_text()).get(prop)
 
 
 def audit(prop, modules, theorems):
@@ -141,9 +169,9 @@ def audit(prop, modules, theorems):
     rc, out = sh(["lake", "env", "lean", str(f)], cwd=LEAN, timeout=600)
     discharged, problems = [], []
     found = {}
-    for m in re.finditer(r"'([^']+)' depends on axioms: \[([^\]]*)\]", out.replace("\n", " ")):
+    for m in re.finditer(r"'(\S+)' depends on axioms: \[([^\]]*)\]", out.replace("\n", " ")):
         found[m.group(1)] = {a.strip() for a in m.group(2).split(",") if a.strip()}
-    for m in re.finditer(r"'([^']+)' does not depend on any axioms", out):
+    for m in re.finditer(r"'(\S+)' does not depend on any axioms", out):
         found[m.group(1)] = set()
     for t in theorems:
         if t not in found:
@@ -200,11 +228,12 @@ class Ctx:
         self.exhaustive = []
         self.thorough = tier == "thorough"
         self.escalated = False
+        self.in_search = False
 
     # -- bookkeeping --------------------------------------------------------------------------
     def count(self, case, nontrivial=True, tag=None):
         self.evaluations += 1
-        if nontrivial:
+        if nontrivial and not self.in_search:
             self.nontrivial.add(chash(case))
         if tag is not None:
             self.dist[tag] += 1
@@ -218,32 +247,47 @@ class Ctx:
         self.notes.append(s)
 
     # -- correspondence -----------------------------------------------------------------------
-    def tie(self, name, cases, line_fn, impl_fn, canon_impl=None, canon_model=None, keep=20):
+    def tie(self, name, cases, line_fn, impl_fn, canon_impl=None, canon_model=None, keep=20, impl=True):
         """cases: list; line_fn(case)->request line; impl_fn(case)->reply string computed by the REAL code
-        in the reply syntax of the driver.  Both replies are canonicalised and compared."""
+        in the reply syntax of the driver.  Both replies are canonicalised and compared.
+        impl=False marks a tie that does not involve /repo (harness mirror vs Lean spec, pyte second opinions).
+        An exception in line_fn / impl_fn / a canon function is a disagreement on that case, never a crash;
+        a driver that cannot be run is infrastructure trouble (exit 2), never a verdict."""
         cases = list(cases)
-        lines = [line_fn(c) for c in cases]
-        t = self.ties.setdefault(name, dict(compared=0, disagreements=0))
-        try:
-            replies = run_driver(lines)
-        except InfraError as e:
-            t["driver_error"] = str(e)
-            self.disagreements.append((name, None, None, "driver unavailable: %s" % e))
-            replies = None
+        t = self.ties.setdefault(name, dict(compared=0, disagreements=0, involves_impl=impl))
+        lines, skipped = [], 0
+        for c in cases:
+            try:
+                lines.append(line_fn(c))
+            except Exception as e:  # noqa: BLE001
+                lines.append("unencodable-request %s" % type(e).__name__)
+                skipped += 1
+        if skipped:
+            t["requests_not_encodable"] = t.get("requests_not_encodable", 0) + skipped
+        replies = run_driver(lines)          # InfraError propagates: exit 2
         impl_out = []
         for i, c in enumerate(cases):
-            r = impl_fn(c)
+            try:
+                r = impl_fn(c)
+            except Exception as e:  # noqa: BLE001 - observing the implementation must not crash the run
+                r = "harness-or-implementation-exception %s: %s" % (type(e).__name__, str(e)[:200])
             impl_out.append(r)
-            if replies is None:
-                continue
-            a = canon_impl(r) if canon_impl else r
             m = replies[i]
-            b = canon_model(m) if canon_model else m
+            try:
+                a = canon_impl(r) if canon_impl else r
+            except Exception as e:  # noqa: BLE001
+                a = ("uncanonical-impl", r, type(e).__name__)
+            try:
+                b = canon_model(m) if canon_model else m
+            except Exception as e:  # noqa: BLE001
+                b = ("uncanonical-model", m, type(e).__name__)
             t["compared"] += 1
             if a != b:
                 t["disagreements"] += 1
-                if len(self.disagreements) < keep:
+                if len(self.disagreements) < keep or (len(self.disagreements) < 10 * keep and name not in {d[0] for d in self.disagreements}):
                     self.disagreements.append((name, c, r, m))
+        if not cases:
+            self.note("tie %s compared nothing" % name)
         return impl_out
 
 
